@@ -181,6 +181,11 @@ func (s *SubmitSmResp) IDecode(data []byte) error {
 	defer r.Release()
 
 	s.Header = smpp.ReadHeader(r)
+	if s.Header.Status != smpp.ESME_ROK && r.Error() == nil && r.Remaining() == 0 {
+		// SMPP 3.4 §4.4.2: the submit_sm_resp body is not returned if command_status is non-zero
+		s.MessageID = ""
+		return nil
+	}
 	s.MessageID = r.ReadCString()
 
 	return r.Error()
